@@ -101,7 +101,7 @@ func checkC17(w *World, r *Report) {
 		wrappers[m] = fn
 		checkForwarder(w, r, tm, fs, fn, m, "HK-WRAP", "Keeper", false)
 	}
-	checkHookShared(w, r, hookSlotOf(w))
+	checkHookShared(w, r, tm, hookSlotOf(w))
 
 	// ---------------------------------------------------------------- HK-SITE
 	for _, m := range hookNames {
@@ -383,14 +383,17 @@ func checkDispatcher(w *World, r *Report, tm *Terms, fs *failSummary, fn *ssa.Fu
 func checkForwarder(w *World, r *Report, tm *Terms, fs *failSummary, fn *ssa.Function, m, rule, owner string, loop bool) {
 	where := w.pos(fn.Pos())
 	key := owner + "." + m
+	// the invocation, wherever the wrapper keeps it: its own body, a helper, or a closure handed to a helper
 	var invokes []ssa.CallInstruction
-	for _, b := range fn.Blocks {
-		for _, in := range b.Instrs {
-			if e := w.EffectOf(in); e != nil && e.Kind == EffHook {
-				invokes = append(invokes, in.(ssa.CallInstruction))
-			}
+	var ifr *Frame
+	seenInv := map[ssa.Instruction]bool{}
+	tm.walkFrom(tm.Root(fn), func(f *Frame, in ssa.Instruction) {
+		if e := w.EffectOf(in); e != nil && e.Kind == EffHook && !seenInv[in] {
+			seenInv[in] = true
+			invokes = append(invokes, in.(ssa.CallInstruction))
+			ifr = f
 		}
-	}
+	})
 	if len(invokes) != 1 {
 		r.Fail(rule, key+":invoke", where, fmt.Sprintf("%s.%s invokes exactly one listener method", owner, m),
 			fmt.Sprintf("found %d invocations of FundraisingHooks methods", len(invokes)))
@@ -402,7 +405,7 @@ func checkForwarder(w *World, r *Report, tm *Terms, fs *failSummary, fn *ssa.Fun
 		fmt.Sprintf("%s.%s forwards to the same-named listener method", owner, m),
 		fmt.Sprintf("it invokes %s instead: listeners of %s are never told, listeners of %s are told twice", cc.Method.Name(), m, cc.Method.Name()))
 	// receiver
-	fr := tm.Root(fn)
+	fr := ifr
 	rt := tm.Of(fr, cc.Value)
 	if loop {
 		okRecv := rt.Op == "elem" && rt.Args[0].Op == "param" && len(fn.Params) > 0 && rt.Args[0].Name == fn.Params[0].Name()
@@ -465,8 +468,8 @@ func checkForwarder(w *World, r *Report, tm *Terms, fs *failSummary, fn *ssa.Fun
 		why = fmt.Sprintf("%d arguments for %d parameters", len(cc.Args), len(params))
 	}
 	for i := 0; okArgs && i < len(params); i++ {
-		at := tm.OperandAt(fr, inv, cc.Args[i])
-		if !(at.Op == "param" && at.Name == params[i].Name()) {
+		at := uncell(tm.OperandAt(fr, inv, cc.Args[i]))
+		if !(at.Op == "param" && at.V == ssa.Value(params[i])) {
 			okArgs = false
 			why = fmt.Sprintf("argument %d is %s, expected the method's own parameter %q", i, at.String(), params[i].Name())
 		}
